@@ -1,4 +1,228 @@
-(* C02 placeholder while proofs are being written; replaced below. *)
-From PV Require Import Sim.Model.
-Theorem C02_placeholder : True. Proof. exact I. Qed.
-Print Assumptions C02_placeholder.
+(* C02 -- DEVS execution: each scheduled event runs exactly once, in
+   time/priority order; clock discipline; illegal scheduling refused.
+
+   Statements about the simulator model Sim/Model.v (tied to
+   src/pydsol/core/simulator.py by harness/c02.py on every run), for every
+   model program [p], every fuel and every reachable state / command sequence.
+   Proofs: Sim/Order.v.  The pending list of the model is the sorted
+   specification list; EventList/Refine.v (C01) shows the heap-backed list of
+   the implementation answers exactly like it. *)
+From Coq Require Import ZArith List Bool Sorting.Sorted Sorting.Permutation.
+From PV Require Import EventList.Key Sim.Model Sim.Order.
+Import ListNotations.
+Local Open Scope Z_scope.
+
+(* ---- clause: "executes ... in non-decreasing time order with ties broken by
+   higher priority and then by scheduling order" ------------------------------
+   The right order statement is "each executed event is the key-minimum
+   (time, -priority, id) of the pending set at the moment it is taken": a
+   handler may schedule a same-time event of higher priority that then
+   legitimately runs next.  [runs p s evs s'] is the sequence of events the run
+   loop takes from s; [run_loop] is such a sequence followed by a loop exit. *)
+
+Theorem C02_run_loop_is_a_sequence_of_takes : forall p fuel s,
+  exists evs s1, runs p s evs s1 /\ loop_exit s1 (run_loop fuel p s).
+Proof. exact run_loop_runs. Qed.
+Print Assumptions C02_run_loop_is_a_sequence_of_takes.
+
+Theorem C02_exec_is_minimum : forall p s evs s' a e b,
+  Inv s -> runs p s evs s' -> evs = a ++ e :: b ->
+  exists sm, runs p s a sm /\ In e (pend sm) /\ clock sm <= ev_time e
+             /\ forall x, In x (pend sm) -> key_leb (ev_key e) (ev_key x) = true.
+Proof. exact exec_is_minimum. Qed.
+Print Assumptions C02_exec_is_minimum.
+
+Theorem C02_step_takes_minimum : forall p s e r,
+  Inv s -> step_checks s = true -> pend s = e :: r -> ev_time e <= end_time s ->
+  let s' := fst (do_step p s) in
+  executed s' = e :: executed s /\ clock s' = ev_time e
+  /\ (forall x, In x (pend s) -> key_leb (ev_key e) (ev_key x) = true).
+Proof. exact step_takes_minimum. Qed.
+Print Assumptions C02_step_takes_minimum.
+
+(* the invariant the order statements rest on holds in every reachable state *)
+Theorem C02_invariant_reachable : forall p s, reachable p s -> Inv s.
+Proof. exact reachable_inv. Qed.
+Print Assumptions C02_invariant_reachable.
+
+Theorem C02_pending_sorted_never_in_past : forall p s,
+  reachable p s ->
+  StronglySorted (fun a b => ev_ltb a b = true) (pend s)
+  /\ Forall (fun e => clock s <= ev_time e) (pend s).
+Proof.
+  intros p s H. split; [apply (proj1 (pending_sorted_unique p s H))|apply (pending_ge_clock p s H)].
+Qed.
+Print Assumptions C02_pending_sorted_never_in_past.
+
+(* ---- clause: "While a handler runs the simulator clock equals that event's
+   time, and the clock never moves backwards" ----------------------------------
+   Every log entry (e, c) records the clock c at which the handler of e was
+   entered; handler code leaves the clock alone; and over any sequence of
+   commands without re-initialisation the clock does not decrease and the new
+   log entries carry non-decreasing clocks between the old and the new clock. *)
+
+Theorem C02_clock_at_exec : forall p s,
+  reachable p s -> Forall (fun ec => snd ec = ev_time (fst ec)) (trace s).
+Proof. exact clock_at_exec. Qed.
+Print Assumptions C02_clock_at_exec.
+
+Theorem C02_clock_constant_in_handler : forall md acts s,
+  clock (fst (exec_actions md s acts)) = clock s.
+Proof. exact handler_clock_const. Qed.
+Print Assumptions C02_clock_constant_in_handler.
+
+Theorem C02_clock_monotone_times_nondecreasing : forall p fuel cs s,
+  Inv s -> forallb (fun c => negb (is_init c)) cs = true ->
+  let s' := fst (run_cmds fuel p s cs) in
+  clock s <= clock s' /\
+  exists new, trace s' = new ++ trace s
+    /\ Forall (fun ec => clock s <= snd ec <= clock s') new
+    /\ StronglySorted (fun a b : ev * Z => snd b <= snd a) new.
+Proof. exact run_cmds_mono. Qed.
+Print Assumptions C02_clock_monotone_times_nondecreasing.
+
+(* ---- clause: "executes exactly the events that were scheduled, not
+   cancelled, and lie within the run horizon, each exactly once" ---------------- *)
+
+(* at most once, for every fuel *)
+Theorem C02_at_most_once : forall p s, reachable p s -> NoDup (map ev_id (executed s)).
+Proof. exact at_most_once. Qed.
+Print Assumptions C02_at_most_once.
+
+(* pending, executed and cancelled events are different events *)
+Theorem C02_pending_executed_cancelled_disjoint : forall s e,
+  Inv s ->
+  (In e (pend s) -> ~ In e (executed s) /\ ~ In e (cancelled s))
+  /\ (In e (executed s) -> ~ In e (cancelled s)).
+Proof. exact Inv_disjoint. Qed.
+Print Assumptions C02_pending_executed_cancelled_disjoint.
+
+(* nothing is lost: without end_replication, every event created in the
+   replication is pending, executed or cancelled *)
+Theorem C02_accounting : forall p fuel cs s,
+  Inv s -> List.incl (created s) (pend s ++ executed s ++ cancelled s) ->
+  forallb (fun c => negb (is_endrepl c)) cs = true ->
+  let s' := fst (run_cmds fuel p s cs) in
+  List.incl (created s') (pend s' ++ executed s' ++ cancelled s').
+Proof. exact run_cmds_acct. Qed.
+Print Assumptions C02_accounting.
+
+(* exactly: a start that reaches the end of the replication executed precisely
+   the events pending at the start or scheduled during the run that were not
+   cancelled while pending and are not later than the end *)
+Theorem C02_exactly_the_scheduled_uncancelled_in_horizon : forall p fuel s r,
+  Inv s -> Acct s -> rep s = Some r -> ps s <> PEnded ->
+  let s' := fst (do_cmd fuel p s CStart) in
+  ps s' = PEnded ->
+  exists evs newc,
+    executed s' = rev evs ++ executed s
+    /\ created s' = created s ++ newc
+    /\ clock s' = r_end r
+    /\ (forall e, In e evs -> In e (pend s) \/ In e newc)
+    /\ (forall e, In e (pend s) \/ In e newc ->
+          (In e evs <-> (~ In e (cancelled s') /\ ev_time e <= r_end r)))
+    /\ (forall e, In e (pend s') -> r_end r < ev_time e).
+Proof. exact start_complete. Qed.
+Print Assumptions C02_exactly_the_scheduled_uncancelled_in_horizon.
+
+(* the same for the run loop with any bound (bounded runs: C03) *)
+Theorem C02_run_loop_complete : forall p fuel s,
+  Inv s -> Acct s -> running s = true -> ps s = PStarted ->
+  ps (run_loop fuel p s) = PEnding ->
+  let s' := run_loop fuel p s in
+  exists evs newc,
+    executed s' = rev evs ++ executed s
+    /\ created s' = created s ++ newc
+    /\ clock s' = bound s /\ end_time s <= bound s
+    /\ (forall e, In e evs -> In e (pend s) \/ In e newc)
+    /\ (forall e, In e (pend s) \/ In e newc ->
+          (In e evs <-> (~ In e (cancelled s') /\ beyond s e = false)))
+    /\ (forall e, In e (pend s') -> beyond s e = true).
+Proof. exact run_loop_complete. Qed.
+Print Assumptions C02_run_loop_complete.
+
+(* cancelling: an executed, already cancelled, absent or unknown event is a
+   no-op on the whole state; a pending one is exactly removed *)
+Theorem C02_cancel_executed_or_cancelled_noop : forall s k e,
+  Inv s -> nth_error (created s) k = Some e -> In e (executed s) \/ In e (cancelled s) ->
+  do_cancel s k = s.
+Proof. exact cancel_done_noop. Qed.
+Print Assumptions C02_cancel_executed_or_cancelled_noop.
+
+Theorem C02_cancel_absent_noop : forall s k e,
+  Inv s -> Acct s -> nth_error (created s) k = Some e -> ~ In e (pend s) -> do_cancel s k = s.
+Proof. exact cancel_absent_noop. Qed.
+Print Assumptions C02_cancel_absent_noop.
+
+Theorem C02_cancel_unknown_noop : forall s k, nth_error (created s) k = None -> do_cancel s k = s.
+Proof. exact cancel_unknown_noop. Qed.
+Print Assumptions C02_cancel_unknown_noop.
+
+Theorem C02_cancel_pending_removes_it : forall s k e,
+  Inv s -> Acct s -> nth_error (created s) k = Some e -> In e (pend s) ->
+  Permutation (pend s) (e :: pend (do_cancel s k)) /\ cancelled (do_cancel s k) = e :: cancelled s.
+Proof. exact cancel_pending_removes. Qed.
+Print Assumptions C02_cancel_pending_removes_it.
+
+(* ---- clause: "A request to schedule an event in the past, with a negative
+   delay, or at a time that is not a number is refused with an error and
+   leaves the pending events unchanged" ---------------------------------------- *)
+
+Theorem C02_illegal_refused : forall s m prio h,
+  match m with
+  | MNow => False
+  | MRel (TNum d) => d < 0
+  | MRel TNaN => True
+  | MAbs (TNum t) => t < clock s
+  | MAbs TNaN => True
+  end ->
+  do_sched s m prio h = out ORefused s
+  /\ pend (do_sched s m prio h) = pend s /\ nid (do_sched s m prio h) = nid s.
+Proof.
+  intros s m prio h H. rewrite (illegal_refused_eq s m prio h H). repeat split.
+Qed.
+Print Assumptions C02_illegal_refused.
+
+(* and only those are refused *)
+Theorem C02_legal_accepted : forall s m prio h,
+  ~ illegal s m ->
+  exists t, sched_time s m = Some t /\ clock s <= t /\
+    do_sched s m prio h = out OAccepted (add_event t prio (HUser h) s).
+Proof.
+  intros s m prio h H. destruct (legal_accepted s m prio h H) as [t [H1 H2]].
+  exists t. repeat split; auto. eapply sched_time_some; eauto.
+Qed.
+Print Assumptions C02_legal_accepted.
+
+(* ---- non-vacuity: a concrete program with a time tie broken by priority, a
+   zero-delay child, a cancelled event, an event beyond the end and an illegal
+   request; the hypotheses of the theorems above hold and the run completes. ---- *)
+Definition ex_prog : program :=
+  [ [ASched (MAbs (TNum 4)) 5 1; ASched (MAbs (TNum 4)) 7 2; ASched (MRel (TNum 8)) 5 2;
+     ASched (MAbs (TNum 100)) 5 1; ASched (MAbs (TNum 12)) 5 2];
+    [ASched MNow 5 2; ACancel 2; ASched (MRel (TNum (-1))) 5 1; ASched (MAbs TNaN) 5 1];
+    [] ].
+Definition ex_s1 : sim := fst (do_cmd 100 ex_prog (init_sim SWarnPause) (CInit (mkRepl 0 0 40))).
+Definition ex_s2 : sim := fst (do_cmd 100 ex_prog ex_s1 CStart).
+
+Example ex_reachable : reachable ex_prog ex_s1 /\ reachable ex_prog ex_s2.
+Proof. split; repeat constructor. Qed.
+
+Example ex_hypotheses :
+  Inv ex_s1 /\ Acct ex_s1 /\ rep ex_s1 = Some (mkRepl 0 0 40) /\ ps ex_s1 <> PEnded /\ ps ex_s2 = PEnded.
+Proof.
+  split; [apply (reachable_inv ex_prog), ex_reachable|].
+  split; [apply (do_cmd_acct ex_prog 100 _ (CInit (mkRepl 0 0 40)) eq_refl (Inv_init _) (Acct_init _))|].
+  split; [reflexivity|]. split; [discriminate|]. vm_compute. reflexivity.
+Qed.
+
+(* executed: warm-up@0, h2@4 (priority 7) before h1@4 (priority 5), the
+   zero-delay child h2@4, h2@12; cancelled: the event at 8; left pending: the
+   event at 100; two refused requests *)
+Example ex_trace :
+  map (fun ec => (ev_h (fst ec), snd ec)) (rev (trace ex_s2))
+    = [(HWarm, 0); (HUser 2%nat, 4); (HUser 1%nat, 4); (HUser 2%nat, 4); (HUser 2%nat, 12)]
+  /\ map ev_time (cancelled ex_s2) = [8] /\ map ev_time (pend ex_s2) = [100]
+  /\ filter (fun o => match o with ORefused => true | _ => false end) (outs ex_s2) = [ORefused; ORefused]
+  /\ clock ex_s2 = 40 /\ flag ex_s2 = false.
+Proof. vm_compute. repeat split. Qed.
